@@ -65,12 +65,14 @@ theorem mk_err (vars : T → List Var) (P : Prims T) (hE : ErrSpec P) {a g : Lis
       exact Or.inr (hE.simp_err _ _ _ _ hs)
   · cases h
 
-theorem orElse_refine (P : Prims T) (hP : Spec holds P okOrd) (s : Site) (l Γ : List T) (xs : List Var) (b : Bool) (o : List Nat) (ho : okOrd o) (v : Val)
-    (hΓ : H holds Γ v) (h : H holds (orElse (P.elimRefine s l Γ xs b o) l) v) : H holds l v := by
-  unfold orElse at h
-  split at h
-  · rename_i r hr; exact hP.refine_ok _ _ _ _ _ _ _ ho hr v hΓ h
-  · exact h
+theorem orElse_refine (P : Prims T) (hP : Spec holds P okOrd) (s : Site) (l Γ : List T) (xs : List Var) (b : Bool) (o : List Nat) (ho : okOrd o) (v : Val) (r' : List T)
+    (hΓ : H holds Γ v) (he : orElse (P.elimRefine s l Γ xs b o) l = .ok r') (h : H holds r' v) : H holds l v := by
+  unfold orElse at he
+  split at he
+  · rename_i r hr; injection he with e; subst e; exact hP.refine_ok _ _ _ _ _ _ _ ho hr v hΓ h
+  · injection he with e; subst e; exact h
+  · injection he with e; subst e; exact h
+  · cases he
 
 /-- both operands' assumptions follow from the computed assumptions once each operand honours its contract -/
 theorem composeAssumptions_sound (vars : T → List Var) (P : Prims T) (hP : Spec holds P okOrd) (c1 c2 : Contract T)
@@ -147,6 +149,10 @@ theorem quotient_sound (vars : T → List Var) (P : Prims T) (hP : Spec holds P 
   split at h; · cases h
   rename_i asm hasm
   split at h; · cases h
+  rename_i g0 hg0e
+  split at h; · cases h
+  rename_i g2 hg2e
+  split at h; · cases h
   obtain ⟨hqa, _, _, hqg⟩ := mk_sem holds vars P hP h
   have hqav : H holds q.a v := by
     rw [hqa]
@@ -161,10 +167,10 @@ theorem quotient_sound (vars : T → List Var) (P : Prims T) (hP : Spec holds P 
   have hqav' := hqav
   rw [hqa] at hqav'
   have hg2 := (hqg v hqav').mp hqgv
-  have hg1 := orElse_refine holds P hP _ _ _ _ _ _ ho v hca hg2
+  have hg1 := orElse_refine holds P hP _ _ _ _ _ _ ho v g2 hca hg2e hg2
   obtain ⟨hg0, ha1⟩ := (H_union holds _ _ v).mp hg1
   have hG1 := h1 ha1
-  exact ⟨ha1, hqav, orElse_refine holds P hP _ _ _ _ _ _ ho v ((H_union holds _ _ v).mpr ⟨hG1, ha1⟩) hg0⟩
+  exact ⟨ha1, hqav, orElse_refine holds P hP _ _ _ _ _ _ ho v g0 ((H_union holds _ _ v).mpr ⟨hG1, ha1⟩) hg0e hg0⟩
 
 theorem merge_exact (vars : T → List Var) (P : Prims T) (hP : Spec holds P okOrd) (c1 c2 m : Contract T)
     (h : merge vars P c1 c2 = .ok m) :
@@ -233,6 +239,17 @@ theorem compose_errors (vars : T → List Var) (P : Prims T) (hE : ErrSpec P) (c
   · rename_i e' hr; injection h with h; subst h; exact Or.inr (hE.relax_err _ _ _ _ _ _ _ hr)
   exact mk_err vars P hE h
 
+theorem orElse_err (P : Prims T) (hE : ErrSpec P) (s : Site) (l Γ : List T) (xs : List Var) (b : Bool) (o : List Nat) (d : List T) (e : Err)
+    (h : orElse (P.elimRefine s l Γ xs b o) d = .error e) : e = .valueError ∨ e = .oracleStuck := by
+  unfold orElse at h
+  split at h
+  · cases h
+  · cases h
+  · cases h
+  · rename_i e' hne1 hne2 hr
+    injection h with h; subst h
+    exact hE.refine_err _ _ _ _ _ _ _ hr
+
 theorem quotient_errors (vars : T → List Var) (P : Prims T) (hE : ErrSpec P) (c c1 : Contract T) (addl : List Var) (simp : Bool)
     (ord : List Nat) (e : Err) (h : quotient vars P c c1 addl simp ord = .error e) :
     e = .incompatibleArgs ∨ e = .valueError ∨ e = .oracleStuck := by
@@ -244,6 +261,10 @@ theorem quotient_errors (vars : T → List Var) (P : Prims T) (hE : ErrSpec P) (
   · rename_i e' hr; injection h with h; subst h; exact Or.inr (hE.refines_err _ _ _ _ hr)
   split at h
   · rename_i e' hr; injection h with h; subst h; exact Or.inr (hE.relax_err _ _ _ _ _ _ _ hr)
+  split at h
+  · rename_i e' hr; injection h with h; subst h; exact Or.inr (orElse_err P hE _ _ _ _ _ _ _ _ hr)
+  split at h
+  · rename_i e' hr; injection h with h; subst h; exact Or.inr (orElse_err P hE _ _ _ _ _ _ _ _ hr)
   split at h
   · injection h with h; exact Or.inl h.symm
   exact mk_err vars P hE h
